@@ -31,7 +31,7 @@ KINDS = ["colander", "chef", "combine_sibling", "combine_ancestor"]
 def cases(tier, seed):
     rng = random.Random(seed + 1400)
     hists = [[a] for a in KINDS] + [[a, b] for a in KINDS for b in KINDS]
-    n_long = 40 if tier == "quick" else 1500
+    n_long = 40 if tier == "quick" else 6000
     for _ in range(n_long):
         hists.append([rng.choice(KINDS) for _ in range(rng.choice([3, 3, 4]))])
     cs = []
